@@ -385,3 +385,45 @@ Definition rf_to_roff (input : list N) : option (list N) :=
 (* add_color_to_roff alone, rendered (its Rgb and Ansi256 arms are not reachable through to_roff) *)
 Definition rf_color_requests (req : list N) (c : option color) : option (list N) :=
   ls <- rf_add_color req c ;; Some (rf_render ls).
+
+(* ================= adapters for the function translator ==========================
+   (tools/gen_fn_roff.py -> Generated/RoffFn.v).  Definitions only; nothing above uses them. *)
+
+(* cansi::v3::CategorisedSlice seen through the pair (SGR, text) of rf_categorise
+   (its `start` / `end` fields are not read by anstyle-roff) *)
+Definition rf_cat : Set := (rf_sgr * list N)%type.
+Definition rf_cslice_text (c : rf_cat) : list N := snd c.
+Definition rf_cslice_fg (c : rf_cat) : option N := cs_fg (fst c).
+Definition rf_cslice_bg (c : rf_cat) : option N := cs_bg (fst c).
+Definition rf_cslice_intensity (c : rf_cat) : option N := cs_intensity (fst c).
+Definition rf_cslice_italic (c : rf_cat) : option bool := cs_italic (fst c).
+Definition rf_cslice_underline (c : rf_cat) : option bool := cs_underline (fst c).
+Definition rf_cslice_blink (c : rf_cat) : option bool := cs_blink (fst c).
+Definition rf_cslice_reversed (c : rf_cat) : option bool := cs_reversed (fst c).
+Definition rf_cslice_hidden (c : rf_cat) : option bool := cs_hidden (fst c).
+Definition rf_cslice_strikethrough (c : rf_cat) : option bool := cs_strikethrough (fst c).
+
+(* anstyle::Style::{new, fg_color, bg_color, effects} on the part of Style this crate uses *)
+Definition rf_style_new : rf_style := mkRfStyle None None e_new.
+Definition rf_style_set_fg (s : rf_style) (c : option color) : rf_style := mkRfStyle c (ry_bg s) (ry_effects s).
+Definition rf_style_set_bg (s : rf_style) (c : option color) : rf_style := mkRfStyle (ry_fg s) c (ry_effects s).
+Definition rf_style_set_effects (s : rf_style) (e : N) : rf_style := mkRfStyle (ry_fg s) (ry_bg s) e.
+
+(* styled_str.rs: struct StyledStr { text, style } *)
+Record rf_styled : Set := mkRfStyled { rfs_text : list N; rfs_style : rf_style }.
+
+(* roff::Roff = the lines pushed so far; Roff::new, Roff::control (returns the document itself:
+   `&mut Self`), Roff::text; roff::{bold, italic, roman} are the constructors of rf_inline *)
+Definition rf_roff_new : list rf_line := [].
+Definition rf_roff_control (d : list rf_line) (name : list N) (args : list (list N)) : list rf_line :=
+  d ++ [RfControl name args].
+Definition rf_roff_text (d : list rf_line) (inlines : list rf_inline) : list rf_line := d ++ [RfText inlines].
+
+(* Iterator::map / Option::map with a function whose translation is option-valued (None = panic) *)
+Fixpoint rf_map_m {A B : Type} (f : A -> option B) (l : list A) : option (list B) :=
+  match l with
+  | [] => Some []
+  | x :: t => y <- f x ;; ys <- rf_map_m f t ;; Some (y :: ys)
+  end.
+Definition rf_opt_map_m {A B : Type} (f : A -> option B) (o : option A) : option (option B) :=
+  match o with Some x => y <- f x ;; Some (Some y) | None => Some None end.
